@@ -123,6 +123,9 @@ func (i Integer) MarshalJSON() ([]byte, error) {
 // fmt package and Printf related methods do to get around all the complexities
 // of float conversion.
 func (f Float) MarshalJSON() ([]byte, error) {
+	if f == 0 {
+		f = 0 // zero has a single form, negative zero loses its sign
+	}
 	num := []byte{}
 	num = strconv.AppendFloat(num, float64(f), 'E', -1, 64)
 
